@@ -78,11 +78,11 @@ Proof.
   destruct (get_state D v (init_dst base)) as [[j st]|] eqn:E0; [|discriminate]. cbn [bind] in Hd.
   destruct (root_fields _ _ _ _ _ E0) as [kv [-> [Hp Hv]]].
   destruct (share_roundtrip D F (cenv_of reg (dn_cur D) F {| a_schema := JNull; a_members := d_members st |}) base v _ _
-              (conj eq_refl eq_refl) eq_refl eq_refl eq_refl Hs Hr Hg E0) as [Hl _].
+              (conj eq_refl eq_refl) eq_refl eq_refl eq_refl eq_refl Hs Hr Hg E0) as [Hl _].
   rewrite Hl in Hd. injection Hd as <-. cbn [a_schema].
   apply loads_of_load_state; [exact Hp|].
   match goal with |- load_state ?C0 _ _ _ = _ =>
-    exact (proj2 (share_roundtrip D F C0 base v _ _ (conj eq_refl eq_refl) eq_refl eq_refl eq_refl Hs Hr Hg E0)) end.
+    exact (proj2 (share_roundtrip D F C0 base v _ _ (conj eq_refl eq_refl) eq_refl eq_refl eq_refl eq_refl Hs Hr Hg E0)) end.
 Qed.
 
 (* ---- the dump does not refuse a value of the proved fragment ---- *)
@@ -196,7 +196,12 @@ Proof.
   - intros id c a IHa Hf st. cbn [fragb] in Hf. apply andb_prop in Hf. destruct Hf as [_ Hfa]. cbn [get_state].
     destruct (IHa Hfa st) as [ja [st1 ->]]. cbn [bind]. eauto.
   - intros; discriminate.
-  - intros; discriminate.
+  - intros id mo c hk h ok x _ IHx Hf st. cbn [fragb] in Hf. apply andb_prop in Hf. destruct Hf as [_ Hok]. cbn [get_state].
+    destruct ok as [| | |e].
+    + apply andb_prop in Hok. destruct Hok as [_ Hfx]. destruct (IHx Hfx st) as [jx [st1 ->]]. cbn [bind]. eauto.
+    + destruct (IHx Hok st) as [jx [st1 ->]]. cbn [bind]. eauto.
+    + eauto.
+    + discriminate Hok.
 Qed.
 
 (* C05 for the real entry points: dumps does not raise, loads(dumps(v)) = v *)
@@ -209,7 +214,7 @@ Proof.
   { unfold c05_guard in Hg. apply andb_prop in Hg. destruct Hg as [Hg _]. apply andb_prop in Hg. destruct Hg as [Hf _]. exact Hf. }
   destruct (frag_total F D v Hf (init_dst base)) as [j [st Hst]].
   destruct (share_roundtrip D F (cenv_of reg cur F {| a_schema := JNull; a_members := d_members st |}) base v j st
-              (conj eq_refl eq_refl) eq_refl eq_refl eq_refl Hs Hr Hg Hst) as [Hl _].
+              (conj eq_refl eq_refl) eq_refl eq_refl eq_refl eq_refl Hs Hr Hg Hst) as [Hl _].
   destruct (dumps_model D base v) as [a|e] eqn:Ed.
   - cbn [bind]. eapply root_roundtrip; eauto.
   - exfalso. unfold dumps_model in Ed. rewrite Hst in Ed. cbn [bind] in Ed.
